@@ -113,11 +113,13 @@ static void family(rng& g, bool thorough, bool dists)
         {
             call_ctx<T> c;
             c.dists = dists;
-        c.dists = dists;
             c.cfg.kind = "mc";
             c.cfg.d = fam == 2 ? 2 : 1;
             c.cfg.densfam = fam;
             c.plan = make_plan(g, 59, 2, 8);
+            // every other size: the odd channels come with a negative jacobian - the weight of their points, and with it the adjustment
+            // data p_i (f w)^2 w, is negative
+            c.jac_neg = N % 2 == 1 || N == 64;
             run_mc<T>(c, make_engine(g, 127), w, std::vector<std::size_t>{N});
         }
         // several adaptive iterations: weights move away from dyadic values => counters only
